@@ -591,6 +591,11 @@ func (m *w1mon) onReceived(d *gkDeco, r *recvPartObs) {
 		if rd.Name == r.Desc.Name && rd.Pos == r.Desc.Beg && rd.MD5 == r.MD5 {
 			return
 		}
+		// consecutive parts of one file are read in one go
+		if rd.Name == r.Desc.Name && rd.Pos <= r.Desc.Beg && r.Desc.End <= rd.Pos+int64(len(rd.Data)) &&
+			bytesMD5(rd.Data[r.Desc.Beg-rd.Pos:r.Desc.End-rd.Pos]) == r.MD5 {
+			return
+		}
 	}
 	for _, rd := range s.reads {
 		// the encoder reads a part in one open/seek; bytes read may extend beyond (never: it stops at end)
@@ -599,7 +604,20 @@ func (m *w1mon) onReceived(d *gkDeco, r *recvPartObs) {
 			return
 		}
 	}
-	s.violate("C13", "part-bytes-differ", "part %s: receiver got %d bytes md5 %s matching neither the announced version's range nor anything the encoder read", r.Desc, r.N, short(r.MD5))
+	if s.liveReadMatches(r.Desc.Name, r.Desc.Beg, r.Desc.End, r.MD5) {
+		return // read through a handle the encoder still has open
+	}
+	if s.sourceEndedInside(r.Desc.Name, r.Desc.Beg, r.Desc.End) {
+		s.stat("probe:part-of-shrunk-source")
+		return
+	}
+	var seen []string
+	for _, rd := range s.reads {
+		if rd.Name == r.Desc.Name && rd.Pos < r.Desc.End && r.Desc.Beg < rd.Pos+rd.N {
+			seen = append(seen, fmt.Sprintf("[%d:+%d step %d]", rd.Pos, rd.N, rd.Step))
+		}
+	}
+	s.violate("C13", "part-bytes-differ", "part %s: receiver got %d bytes md5 %s matching neither the announced version's range nor anything the encoder read (reads overlapping the range: %v)", r.Desc, r.N, short(r.MD5), seen)
 }
 
 // listing must only claim ranges whose bytes are really in the staged file
